@@ -1,9 +1,7 @@
 \* quick tier: exhaustive laws + case emission over the quick pattern/tree families
-SPECIFICATION SpecGen
+SPECIFICATION SpecQuick
 CONSTANTS
   Names <- MCNames
-  PatSeq <- QuickPats
-  TreeSeq <- QuickTrees
   MergeMode = "union"
   NotMode = "frame"
   IdxMode = "name"
